@@ -401,6 +401,15 @@ theorem C09_conflicting_name_not_owner_partial (svc : Svc) (old : String) (hn : 
 escape E2 — breaks `C09_key_follows_name`, and the harness asks for the abandoned and for the held name after every rename).
 The responder's choice of records is C03's model (`Zc.instancePart`, `Zc.pointerPart`: look-ups in the registry by lower-cased name). -/
 
+/-- the public wrappers pass `allow_name_change`, `cooperating_responders`, `strict` on in that order (third review: a swap in the
+synchronous `register_service` registered a taken name with no probe at all).  Shape pins; the harness registers through
+`AsyncZeroconf.async_register_service` in 30 % of the scenarios and through the threaded `register_service` in a small real-loop stream. -/
+theorem C09_api_wrappers_pass_arguments :
+    Gen.Register.src_sync_register_arg2 = "allow_name_change" ∧ Gen.Register.src_sync_register_arg3 = "cooperating_responders" ∧
+    Gen.Register.src_sync_register_arg4 = "strict" ∧ Gen.Register.src_aio_register_arg2 = "allow_name_change" ∧
+    Gen.Register.src_aio_register_arg3 = "cooperating_responders" ∧ Gen.Register.src_aio_register_arg4 = "strict" :=
+  Zc.GenFacts.Register.api_wrappers_pass_arguments
+
 /-- the registry key of an info is its lower-cased name at construction and after every rename -/
 theorem C09_key_follows_name :
     Gen.Register.src_info_ctor_key = "name.lower()" ∧ Gen.Register.src_info_name_setter_key = "name.lower()" :=
@@ -414,12 +423,15 @@ theorem instancePart_none (lower : String → String) (reg : Zc.Registry) (q : Q
   · simp [h]
   · rfl
 
-/-- **The conflicting name is never answered for.**  `reg'` = the registry after it accepted the service under its final name
-(`C09_only_then`: key `lower final`; `C09_abandoned_never_returns`: the final name is none of the names the registration moved away
-from).  A question for an abandoned name `old` — another key (`hne`: names that differ only in case are one name, as for the cache)
-that the instance did not hold before this registration (`hfree`; a name it does hold through an earlier registration is answered for
-that registration) — finds no instance in the registry: no SRV / TXT strategy (`Zc.instancePart`), and the pointer answers to a
-question for the *type* are built from registered services only, none of which has the abandoned key. -/
+/-- **"… or answered for", the registry side.**  A fact about C03's registry model, deliberately small: adding the service under its final
+name makes no *other* key answerable.  `hne` (the abandoned name has another key than the final one) and `hfree` (the instance did not
+hold it before) are the substance — the theorem only says that `Registry.add` files the new service under `lower s.name` and nothing else,
+so that an SRV / TXT / ANY question for `old` finds no instance (`Zc.instancePart`; the pointer part answers from registered services of
+the type, the address part by *host* name — with `server=None` that is D16).  It is **not composed** with the registration run in Lean:
+`registerRun` keeps the keys in `Names`, C03's `Zc.Registry` is another table, and `lower` is arbitrary (names that differ only in case
+are one key, which is why `hne` cannot be derived from `C09_abandoned_never_returns`' "the final name is another *string*").  The link is:
+`C09_only_then` / `C09_abandoned_key_not_filed` (the run files exactly `lower final`), `C09_key_follows_name` (the real object's key follows
+every rename), and stage O, which asks for every abandoned name and for the held name after each renamed registration. -/
 theorem C09_abandoned_not_answered (lower : String → String) (reg reg' : Zc.Registry) (s : Zc.Svc) (old : String) (q : Question)
     (hadd : reg.add lower s = .ok reg') (hq : lower q.name = lower old) (hne : lower old ≠ lower s.name)
     (hfree : Zc.sget lower (lower old) reg.services = none) :
@@ -453,6 +465,25 @@ theorem C09_held_name_found (lower : String → String) (reg reg' : Zc.Registry)
     unfold Zc.sget at hn ⊢
     rw [List.find?_append, hn]
     simp [Zc.Svc.clearMemo]
+
+/-- the same on the run's own key table: a completed `registerRun` files exactly the key of the final name; a name with another key that the
+table did not hold before is not in it afterwards (with `C09_abandoned_never_returns`: the names the run moved away from are other strings
+than the final one) -/
+theorem C09_abandoned_key_not_filed (allow : Bool) (valid : String → Bool) (lower : String → String) (names : Names) (svc : Svc) (inst : String) (oid : Nat)
+    (w0 : Wake) (ws : List Wake) (r : RegResult) (h : registerRun allow valid lower names svc inst oid w0 ws = some r)
+    (old : String) (hne : lower old ≠ lower r.cfg.st.svc.name) (hfree : lower old ∉ names.map Prod.fst) :
+    lower old ∉ r.names.map Prod.fst := by
+  have key := C09_only_then allow valid lower names svc inst oid w0 ws r h
+  cases ht : r.task with
+  | none =>
+    rw [ht] at key
+    rw [key.2.1]; exact hfree
+  | some t =>
+    rw [ht] at key
+    obtain ⟨_, _, _, _, hn, _⟩ := key
+    rw [hn]
+    simp only [List.map_append, List.map_cons, List.map_nil, List.mem_append, List.mem_singleton, not_or]
+    exact ⟨hfree, hne⟩
 
 /-! ### one instance never holds the same name twice -/
 
